@@ -1,6 +1,6 @@
 (* C02 — shape of the generated cases and the two executable verdicts. No proofs. *)
 From VLib Require Import CaseLib.
-From C02 Require Export Model ModelTx ModelSealed.
+From C02 Require Export Model ModelTx ModelSealed ModelTxStep.
 Open Scope N_scope.
 
 (* the executable cases are evaluated with the glob / range matcher *)
@@ -34,7 +34,9 @@ Definition sq_spec_ok (c : list doc) (s : squery) : bool :=
   ids_eqb si ids && (st =? total) && hist_eqb (hist_spec c src from to hist) himpl.
 
 (* ---- unit level: real TokenLIDs driven by a script of PutLIDsInQueue / GetLIDs ---- *)
-Inductive tlop := TPut (lids : list N) | TGet.
+(* TWin puts: a GetLIDs with PutLIDsInQueue(puts_k) of other workers executed INSIDE the window between "queue taken"
+   and "merged" (ModelTxStep.v, fresh-queue discipline) *)
+Inductive tlop := TPut (lids : list N) | TGet | TWin (puts : list (list N)).
 
 (* model: the slices GetLIDs returned, in order *)
 Fixpoint tl_run (mids rids : list N) (ops : list tlop) (tl : tlids) : list (list N) :=
@@ -42,6 +44,9 @@ Fixpoint tl_run (mids rids : list N) (ops : list tlop) (tl : tlids) : list (list
   | [] => []
   | TPut lids :: r => tl_run mids rids r (put_lids tl lids)
   | TGet :: r => let tl' := get_lids mids rids tl in t_sorted tl' :: tl_run mids rids r tl'
+  | TWin ps :: r =>
+      let z := run2 Fresh mids rids (ZTake :: map ZPut ps ++ [ZMerge]) (tl2_of tl) in
+      z_sorted z :: tl_run mids rids r {| t_sorted := z_sorted z; t_queue := z_queue z |}
   end.
 
 Fixpoint strictly_desc (mids rids : list N) (l : list N) : bool :=
@@ -59,6 +64,9 @@ Fixpoint tl_spec (mids rids : list N) (ops : list tlop) (sofar : list N) (impl :
   | TGet :: r, out :: impl' =>
       strictly_desc mids rids out && forallb (fun x => memN x sofar) out && forallb (fun x => memN x out) sofar
       && tl_spec mids rids r sofar impl'
+  | TWin ps :: r, out :: impl' =>   (* the window's puts are not in this answer, and must be in the next one *)
+      strictly_desc mids rids out && forallb (fun x => memN x sofar) out && forallb (fun x => memN x out) sofar
+      && tl_spec mids rids r (sofar ++ concat ps) impl'
   | _, _ => false
   end.
 
